@@ -215,6 +215,11 @@ def emitted_packets(h):
 
 def _run(h):
     ctx, pgpy = h.ctx, h.pgpy
+    from . import sigcommon as _S
+    from pgpy.types import Header as _BH, MetaDispatchable as _MD
+    from pgpy.packet.types import Header as _H, Packet as _P, VersionedHeader as _VH, Opaque as _O
+    _objs = {'types.Header.length_bin': _BH.length_bin, 'packet.Header.parse': _H.parse, 'VersionedHeader.parse': _VH.parse, 'MetaDispatchable.__call__': _MD.__call__, 'Packet.update_hlen': _P.update_hlen, 'Opaque.parse': _O.parse}
+    _S.check_pins(ctx, [(k, _objs[k], v) for k, v in {'types.Header.length_bin': '377b05380a964da6', 'packet.Header.parse': '24ff130f0ca424d2', 'VersionedHeader.parse': '35ab70161e2827e2', 'MetaDispatchable.__call__': '1ad487f8b93733b6', 'Packet.update_hlen': 'd3e11a2c7e5557c4', 'Opaque.parse': 'ca6a82edaf78bc9b'}.items()])
     rng = ctx.rng
     seen = set()
     # ---- 1. everything PGPy emits, packet by packet ----
